@@ -7,7 +7,7 @@
 (* (non-stuck idiom): it is printed as a REJECT line and counted, and the  *)
 (* rest of the trace is still examined.                                    *)
 (***************************************************************************)
-EXTENDS BigNat, TLC, Json, IOUtils, Sequences,
+EXTENDS BigNat, TLC, Json, IOUtils, Sequences, Labels,
         JC01, JC02, JC03, JC04, JC05, JC06, JC07, JC08, JC09, JC10, JC11, JC12, JC13, JC14, JC15, JC16, JC17, JC18, JC19, JC20
 
 Rec == ndJsonDeserialize(IOEnv.TRACE)
@@ -49,7 +49,13 @@ NextRegs(e, rg) ==
        [] e.p = "C01" -> GhostC01(e, base)
        [] OTHER -> base
 
-Init == l = 1 /\ regs = <<>> /\ nbad = 0
+(* input-class tally (tla/Labels.tla) in TLC register 77: a function label -> number of events; -workers 1 *)
+Tally(S) ==
+  IF S = {} THEN TRUE
+  ELSE LET old == TLCGet(77)
+       IN TLCSet(77, [x \in (DOMAIN old) \cup S |-> (IF x \in DOMAIN old THEN old[x] ELSE 0) + (IF x \in S THEN 1 ELSE 0)])
+
+Init == l = 1 /\ regs = <<>> /\ nbad = 0 /\ TLCSet(77, [x \in {} |-> 0])
 
 Step ==
   /\ l <= Len(Rec)
@@ -58,11 +64,12 @@ Step ==
      IN /\ regs' = NextRegs(e, regs)
         /\ nbad' = IF ok THEN nbad ELSE nbad + 1
         /\ (~ok) => PrintT(<<"REJECT", l>>)
+        /\ Tally(LabelsOf(e))
   /\ l' = l + 1
 
 Spec == Init /\ [][Step]_<<l, regs, nbad>>
 
 \* every line consumed: one state per line plus the initial one
-Accepted == IF TLCGet("stats").diameter - 1 = Len(Rec) THEN TRUE
+Accepted == IF TLCGet("stats").diameter - 1 = Len(Rec) THEN PrintT(<<"LABELS", ToJson(TLCGet(77))>>)
             ELSE PrintT(<<"INCOMPLETE", TLCGet("stats").diameter - 1, Len(Rec)>>) /\ FALSE
 =============================================================================
